@@ -1223,6 +1223,33 @@ def oracle_search(tier, rng, odfdo, U, budget_s=240):
     return None
 
 
+_CTX = {}
+
+
+def _exec_chunk(args):
+    g, chunk = args
+    out = []
+    for sp in chunk:
+        try:
+            out.append((execute(g, sp, _CTX["odfdo"], _CTX["U"]), None))
+        except Exception as e:
+            out.append((None, "%s: %s" % (type(e).__name__, e)))
+    return out
+
+
+def exec_all(g, sps, odfdo, U):
+    """drive the implementation on every case description; big batches on 8 forked workers (each call keeps its own time limit)"""
+    _CTX.update(odfdo=odfdo, U=U)
+    if len(sps) < 3000:
+        return _exec_chunk((g, sps))
+    import multiprocessing
+    n = 600
+    chunks = [(g, sps[i:i + n]) for i in range(0, len(sps), n)]
+    with multiprocessing.get_context("fork").Pool(8) as pool:
+        res = pool.map(_exec_chunk, chunks)
+    return [x for r in res for x in r]
+
+
 GROUPS = {"A": (HEADER_A, key_pure, 2500), "B": (HEADER_B, key_read, 250), "C": (HEADER_C, key_write, 250), "D": (HEADER_D, key_named, 250)}
 
 
@@ -1280,11 +1307,11 @@ def run(tier, seed, replay=None):
     for g in "ABCD":
         hdr, keyf, shard = GROUPS[g]
         terms, ok_specs = [], []
-        for sp in specs[g]:
-            try:
-                terms.append(execute(g, sp, odfdo, U)); ok_specs.append(sp)
-            except Exception as e:  # the harness could not drive / abstract the implementation
-                abstraction_errors.append((g, sp, "%s: %s" % (type(e).__name__, e)))
+        for sp, (term, err) in zip(specs[g], exec_all(g, specs[g], odfdo, U)):
+            if err is None:
+                terms.append(term); ok_specs.append(sp)
+            else:                       # the harness could not drive / abstract the implementation
+                abstraction_errors.append((g, sp, err))
             kind = sp.get("m") or sp["k"]
             hist[g + ":" + kind] = hist.get(g + ":" + kind, 0) + 1
         evals += len(terms)
